@@ -1,7 +1,7 @@
 (* GENERATED from C06_Props.v by tools/c06.py: the theorem statements as Props, for the proof files. *)
 From Coq Require Import List NArith Bool Arith.
 From Dae.gen Require Import C06_Extracted.
-From Dae Require Import C06_Spec C06_Model.
+From Dae Require Import C06_Spec C06_Model C06_Async C06_Session.
 Import ListNotations.
 Open Scope N_scope.
 
@@ -91,6 +91,56 @@ Definition C06_usable_after_timeout_nonvacuous_stmt : Prop :=
   fst (fst (sniff_tcp script)) = TimedOut
   /\ (let '(r, st, rest) := sniff_tcp script in relay_read_all 32768 st rest)
      = ([22; 3; 1; 0; 100; 1; 0; 1; 2], RsEof).
+
+Definition C06_async_same_without_timeout_stmt : Prop :=
+  forall script : list rd,
+    let '(r, st, pend, rest) := async_sniff script in
+    r <> TimedOut -> pend = None /\ sniff_tcp script = (r, st, rest).
+
+Definition C06_async_replay_exact_full : Prop :=
+  forall (script : list rd) (drain p : N) (sc : sched),
+    let '(r, st, pend, rest) := async_sniff script in
+    drain <> 0 -> fst (async_relay drain sc p st pend rest) = s_buf st ++ fst (relay_conn rest).
+
+Definition C06_async_usable_after_timeout_full : Prop :=
+  forall (script : list rd) (p : N) (sc : sched),
+    let '(r, st, pend, rest) := async_sniff script in
+    r <> IoError -> blen (s_buf st) <= p ->
+    async_relay 0 sc p st pend rest = (s_buf st ++ fst (relay_conn rest), snd (relay_conn rest)).
+
+Definition C06_async_replay_exact_refuted_stmt : Prop :=
+  exists (script : list rd) (drain p : N) (sc : sched),
+    let '(r, st, pend, rest) := async_sniff script in
+    drain <> 0 /\ fst (async_relay drain sc p st pend rest) <> s_buf st ++ fst (relay_conn rest).
+
+Definition C06_async_usable_after_timeout_refuted_stmt : Prop :=
+  exists (script : list rd) (p : N) (sc : sched),
+    let '(r, st, pend, rest) := async_sniff script in
+    r = TimedOut /\ blen (s_buf st) <= p
+    /\ async_relay 0 sc p st pend rest <> (s_buf st ++ fst (relay_conn rest), snd (relay_conn rest)).
+
+Definition C06_async_replay_exact_partial_stmt : Prop :=
+  forall (script : list rd) (drain p : N),
+    let '(r, st, pend, rest) := async_sniff script in
+    drain <> 0 ->
+    (match rest with e :: _ => rd_status e = RsOk | [] => True end) ->
+    fst (async_relay drain LateFirst p st pend rest) = s_buf st ++ fst (relay_conn rest).
+
+Definition C06_udp_session_replay_exact_stmt : Prop :=
+  forall h : list sevent,
+    monotone h = true ->
+    let '(outs, fwd, dropped, st) := run_session h in
+    dropped = [] -> fwd ++ pending st = map ev_data h.
+
+Definition C06_udp_session_never_withholds_full : Prop :=
+  forall h : list sevent, monotone h = true ->
+    let '(outs, fwd, dropped, st) := run_session h in dropped = [].
+
+Definition C06_udp_session_never_withholds_refuted_stmt : Prop :=
+  exists h : list sevent,
+    monotone h = true /\
+    let '(outs, fwd, dropped, st) := run_session h in
+    dropped <> [] /\ fwd ++ pending st <> map ev_data h.
 
 Definition C06_nonvacuous_stmt : Prop :=
   let h := {| h_minor := 3; h_random := repeat 7 32%nat; h_session := [1; 2; 3]; h_suites := [19; 1; 19; 2];
